@@ -34,6 +34,7 @@ type Session struct {
 	graph           *graphTracker
 	sharedStore     bool // the store is used by other goroutines: its traffic is not this session's
 	keyCompare      func(a, b interface{}) (int, error)
+	marshal         func(interface{}) ([]byte, error)
 	lastActs        int
 	lastHsync       string
 	ctx             context.Context
@@ -64,6 +65,7 @@ func (s *Session) remoteConfig() *mast.RemoteConfig {
 		StoreImmutablePartsWith: s.Store,
 		NodeCache:               s.Cache,
 		KeyCompare:              s.keyCompare,
+		Marshal:                 s.marshal,
 	}
 }
 
